@@ -284,6 +284,18 @@ func genUnits(rt *rapid.T) ([]string, []string) {
 		units = append(units[:pos], append(extra, units[pos:]...)...)
 		globals = append(globals, "rv1", "rv2")
 	}
+	// a package-level constant, and later a parameter and loop variables of the same name: the local binding wins,
+	// whether the constant's declaration has already been evaluated or not
+	if rx.Chance(rt, "constshadow", 1, 2) {
+		pos := rx.Range(rt, "cspos", 1, len(units))
+		extra := []string{"const kc = 3", "var kg = kc + 1", "func usekc(kc int) int {\n\treturn kc*2 + kg\n}", "rkc := usekc(7)", "rk2 := 0", "for kc := 0; kc < 2; kc++ {\n\trk2 += kc + 10\n}", "for _, kg := range []int{5, 6} {\n\trk2 += kg\n}", "rk3 := kc + kg"}
+		for _, u := range extra {
+			pos = rx.Range(rt, "csnext", pos, len(units))
+			units = append(units[:pos], append([]string{u}, units[pos:]...)...)
+			pos++
+		}
+		globals = append(globals, "rkc", "rk2", "rk3", "kg")
+	}
 	// script packages imported between the other statements: each import comes before its uses, anywhere else they may
 	// be cut apart; two of the packages have the same package name and are told apart by their aliases
 	if rx.Chance(rt, "scriptimports", 1, 2) {
